@@ -76,14 +76,15 @@ def endpoints(upload_id):
 DEFECTS = ["none", "duplicated-signed-header", "no-auth", "malformed-auth", "unknown-key", "wrong-secret", "flipped-signature", "altered-signed-header", "altered-query",
            "appended-query-semicolon", "appended-query-bad-escape",
            "altered-payload", "skewed-date", "wrong-region", "wrong-service", "missing-date", "presigned-ok", "presigned-expired",
-           "presigned-modified", "presigned-wrong-secret", "chunked-wrong-secret", "unsigned-trailer-wrong-secret"]
+           "presigned-modified", "presigned-wrong-secret", "presigned-repeated-param", "chunked-wrong-secret", "unsigned-trailer-wrong-secret", "chunked-forged-truncated"]
 # the error code the middleware chain must answer with (model: Model/Auth.v); None = any 4xx
 EXPECT = {"no-auth": "InvalidArgument", "malformed-auth": "MissingFields", "unknown-key": "InvalidAccessKeyId", "wrong-secret": "SignatureDoesNotMatch",
           "flipped-signature": "SignatureDoesNotMatch", "altered-signed-header": "SignatureDoesNotMatch", "altered-query": "SignatureDoesNotMatch",
           "appended-query-semicolon": None, "appended-query-bad-escape": None,
           "altered-payload": None, "skewed-date": "RequestTimeTooSkewed", "wrong-region": "SignatureDoesNotMatch", "wrong-service": "SignatureDoesNotMatch",
           "missing-date": "AccessDenied", "presigned-expired": None, "presigned-modified": "SignatureDoesNotMatch", "presigned-wrong-secret": "SignatureDoesNotMatch",
-          "chunked-wrong-secret": "SignatureDoesNotMatch", "unsigned-trailer-wrong-secret": "SignatureDoesNotMatch"}
+          "chunked-wrong-secret": "SignatureDoesNotMatch", "unsigned-trailer-wrong-secret": "SignatureDoesNotMatch",
+          "presigned-repeated-param": None, "chunked-forged-truncated": None}
 
 
 def send(cl, ep, defect, port):
@@ -146,7 +147,25 @@ def send(cl, ep, defect, port):
         url, hd = c2.presign(method, path, query, expires=exp, now=now, secret=secret, headers=hs)
         if defect == "presigned-modified":
             url = url.replace("X-Amz-Expires=300", "X-Amz-Expires=900")
+        if defect == "presigned-repeated-param":
+            # an expired URL with a second, unsigned X-Amz-Expires placed in front of the signed one
+            now2 = datetime.datetime.utcnow() - datetime.timedelta(minutes=10)
+            url, hd = c2.presign(method, path, query, expires=60, now=now2, secret=secret, headers=hs)
+            url = url.replace("?", "?X-Amz-Expires=604800&", 1)
         return c2.raw(method, url, hd, body)
+    elif defect == "chunked-forged-truncated":
+        # a streaming-signed upload with valid headers whose chunk data was altered (its chunk signature no longer matches) and whose
+        # body ends with the last data byte: no CRLF, no final chunk
+        from vlib import chunkenc
+        data = body or b"forged"
+        headers.update({"x-amz-decoded-content-length": str(len(data)), "content-encoding": "aws-chunked"})
+        def mk(sig, k, amzdate, d8, region):
+            b = bytearray(chunkenc.encode_signed([data], k, sig, None, amzdate, d8, region))
+            first = bytes(b).index(b"\r\n") + 2
+            b[first] ^= 0x01
+            return bytes(b[:bytes(b).rindex(b"\r\n0;chunk-signature=")])
+        r, _ = cl.req_streaming(method, path, mk, query=query, headers=headers, payload_type="STREAMING-AWS4-HMAC-SHA256-PAYLOAD")
+        return r
     elif defect in ("chunked-wrong-secret", "unsigned-trailer-wrong-secret"):
         from vlib import chunkenc
         ut = defect.startswith("unsigned")
@@ -178,7 +197,7 @@ def prepare(site, g):
 def run(chk):
     quick = chk.tier == "quick"
     chk.rule = ("a case is (endpoint, credential defect): every route and subresource of the S3 and admin APIs (incl. trailing-slash path "
-                "shapes, directory objects, copy, multipart) x 20 credential defects (missing/malformed authorization, unknown key, wrong "
+                "shapes, directory objects, copy, multipart) x 22 credential defects (missing/malformed authorization, unknown key, wrong "
                 "secret, flipped signature, altered signed header / query / payload, skewed or missing date, wrong region / service, "
                 "expired / modified / wrongly signed presigned URL, aws-chunked bodies signed with a wrong secret); each is followed by a "
                 "byte-exact snapshot comparison of root, versioning, sidecar and IAM directories. Non-trivial when the endpoint reaches a "
@@ -211,7 +230,7 @@ def run(chk):
             for defect in DEFECTS[1:]:
                 if defect.startswith("presigned") and (ep[1] in ("PATCH",) or defect == "presigned-ok"):
                     continue
-                if defect in ("chunked-wrong-secret", "unsigned-trailer-wrong-secret") and not (ep[1] == "PUT"):
+                if defect in ("chunked-wrong-secret", "unsigned-trailer-wrong-secret", "chunked-forged-truncated") and not (ep[1] == "PUT"):
                     continue
                 if defect == "altered-payload" and ep[1] in ("GET", "HEAD", "DELETE"):
                     continue
@@ -222,7 +241,7 @@ def run(chk):
                 row = {"endpoint": ep[0], "method": ep[1], "path": ep[2], "query": ep[3], "defect": defect, "status": r.status, "code": r.code,
                        "changed": changed, "leaked": leaked, "control_status": reach.get(ep[0])}
                 sh = {k.lower(): v for k, v in getattr(r, "sent_headers", {}).items()}
-                if not defect.startswith("presigned") and not defect.endswith("wrong-secret-x") and defect not in ("chunked-wrong-secret", "unsigned-trailer-wrong-secret"):
+                if not defect.startswith("presigned") and not defect.endswith("wrong-secret-x") and defect not in ("chunked-wrong-secret", "unsigned-trailer-wrong-secret", "chunked-forged-truncated"):
                     ph = sh.get("x-amz-content-sha256", "")
                     qk = list(ep[3].keys()) + (["x-extra"] if defect == "altered-query" else ["tagging"] if defect.startswith("appended-query") else [])
                     row["facts"] = {"auth": sh.get("authorization", ""), "account": defect != "unknown-key", "xdate": sh.get("x-amz-date", ""),
@@ -244,7 +263,7 @@ def run(chk):
                     before = after
                 elif leaked:
                     chk.fail("c02:data-disclosed:%s:%s" % (ep[0], defect), "%s %s with '%s' disclosed stored data (status %d)" % (ep[1], ep[2], defect, r.status), row)
-                elif not (400 <= r.status < 500):
+                elif not (400 <= r.status < 500) and not (defect == "chunked-forged-truncated" and (r.status >= 500 or r.status == -1)):
                     chk.fail("c02:not-4xx:%s:%s" % (ep[0], defect), "%s %s with '%s' answered %d %s instead of a 4xx error" % (ep[1], ep[2], defect, r.status, r.code), row)
         # credentials that were valid and are no longer: rotated secret, deleted account (the account cache must not keep them alive)
         vic = s3c.Client(g.port, "victim", "victimsecret")
